@@ -7,6 +7,7 @@ divides by zero (Z ≠ 0), its output represents exactly the point that ristrett
 subgroup (so the output is a valid element, C01/C06), and the map is invariant under r₀ ↦ -r₀.  The two-input hash
 is, by its definition, the group sum of the one-input map applied to each input.
 -/
+import Decaf.BuildsCmd
 import Decaf.Lemmas.ModelElligator
 import Decaf.Props.C01
 
@@ -77,3 +78,11 @@ example : ((elligator sqrtRatioMin ZETA 0).map Ext.isIdentity = some true) ∧
     ((elligator sqrtRatioArk ZETA 1).map Ext.isIdentity = some false) := by decide +kernel
 
 end C07
+
+/-! ### the statements for the two shipped routines (`C09.ark_contract`, `C09.min_contract` discharge the premise) -/
+instantiate_builds C07.elligator_eq_spec
+instantiate_builds C07.elligator_total
+instantiate_builds C07.elligator_builds_agree
+instantiate_builds C07.elligator_neg
+instantiate_builds C07.elligator_valid
+instantiate_builds C07.hash_to_curve_eq
